@@ -386,6 +386,16 @@ def collect_sources(node, acc):
         collect_sources(c, acc)
 
 
+class FalsyHandler:
+    """an error log used as on_error_handler: callable, and empty (false) as long as nothing was logged"""
+
+    def __call__(self, exc):
+        HANDLER_CALLS.append(_base_name(exc))
+
+    def __len__(self):
+        return 0
+
+
 def prepare(cfg):
     if cfg.get('mutant'):
         _mutate(cfg['mutant'])
@@ -404,7 +414,9 @@ def prepare(cfg):
         opts['extra_builtins'] = dict(cfg['extra_builtins'])
     if 'implicit_i18n_attributes' in opts:
         opts['implicit_i18n_attributes'] = set(opts['implicit_i18n_attributes'])
-    if cfg.get('handler'):
+    if cfg.get('handler') == 'falsy':
+        opts['on_error_handler'] = FalsyHandler()
+    elif cfg.get('handler'):
         opts['on_error_handler'] = lambda exc: HANDLER_CALLS.append(_base_name(exc))
     STATE['compile_error'] = None
     try:
